@@ -423,6 +423,21 @@ impl<'buf, IO: Io> Connection<'_, 'buf, IO> {
         Ok(())
     }
 
+    /// Complete a packet that a cancelled operation left partially written, so that whatever is
+    /// written next starts at a packet boundary.
+    pub(super) async fn finish_partial_packet(&mut self) -> Result<(), Error<IO::Error>> {
+        while let Some(step) = self
+            .session
+            .data
+            .outbound
+            .next_step()
+            .filter(OutboundStep::is_in_progress)
+        {
+            self.perform_outbound_step(step, Instant::now()).await?;
+        }
+        Ok(())
+    }
+
     pub(super) async fn flush_outbound(&mut self) -> Result<(), Error<IO::Error>> {
         loop {
             self.maybe_queue_pingreq(Instant::now())?;
